@@ -109,10 +109,9 @@ impl From<SelectorParseError<'_>> for SelectorError {
                     Self::UnexpectedTokenInAttribute
                 }
                 SelectorParseErrorKind::ClassNeedsIdent(_) => Self::InvalidClassName,
-                SelectorParseErrorKind::InvalidState => {
-                    debug_assert!(false, "invalid state");
-                    Self::UnsupportedSyntax
-                }
+                // NOTE: the parser reports a pseudo-element inside `:not()` this way,
+                // e.g. `:not(::before)`.
+                SelectorParseErrorKind::InvalidState => Self::UnsupportedSyntax,
             },
         }
     }
